@@ -84,6 +84,19 @@ def build(tier, known):
                          bound=f'{dom} of length exactly {n}; {"strict" if params["strict"] else "lenient"} parser; symbolic current line L in a document of T lines; every feasible MIR path explored',
                          claim='no panic (failed MIR assert: arithmetic overflow, index out of bounds; slice/str index; unwrap) on any path; every error and warning names a line in 1..=T',
                          native=('data', 'n_c02_value_total'), parts=(16 if n >= 6 else (8 if n >= 4 else 1)), timeout=900 if q else 7200))
+    # ---- whole (mini) documents: the real tokenizer + parse_element + verify_end_of_input on their MIR ----
+    hs.append(Harness('n_parse_element_doc', 'data', 'parser.rs', '', functions=[], bound='', claim='', role='native'))
+    PFUNCS = ['lexer::ArxmlLexer::next (+ the five token readers)', 'parser::ArxmlParser::parse_element (recursive)', 'parser::ArxmlParser::verify_end_of_input',
+              'parser::ArxmlParser::find_element_in_spec_checked', 'check_element_conflict', 'check_multiplicity', 'parse_attribute_text', 'parse_character_data', 'ElementRaw::wrap']
+    SCHEMA = 'specification answers given by a mini schema that mirrors the real one: AUTOSAR > AR-PACKAGES (0..1) > AR-PACKAGE* > SHORT-NAME (1), CATEGORY (0..1, symbolic version mask), AR-PACKAGES (0..1); identifier-typed values; any single-bit file version; 11 tokens (5 start tags... text of one symbolic byte, a comment, </AUTOSAR>)'
+    for L in range(0, (4 if q else 5) + 1):
+        hs.append(E2Spec(f'e2_c02_doc_len{L}', 'ParseElementDocs', dict(length=L, aspect='c02'), functions=PFUNCS,
+                         bound=f'ALL {11 ** L} token sequences of length exactly {L} as the body of the root element; ' + SCHEMA,
+                         claim='no panic, termination, and every error names a line of the document, for the whole tokenizer + element parser on these documents', native=('data', 'n_parse_element_doc'), parts=(16 if L >= 4 else (4 if L == 3 else 1)), timeout=1500 if q else 7200))
+    for base in ([0, 1, 2, 3, 4, 7, 9, 10] if q else range(0, 11)):
+        hs.append(E2Spec(f'e2_c02_doc_edits{base}', 'ParseElementDocs', dict(base=base, aspect='c02', sym_texts=(2 if base < 5 else 1)), functions=PFUNCS,
+                         bound=f'seed document no. {base} of mirsym/e2defs.py VALID_DOCS (valid documents and documents with one defect) and ALL its single-token edits (delete, duplicate, replace by any token, insert any token anywhere); ' + SCHEMA,
+                         claim='no panic, termination, and every error names a line of the document, for the whole tokenizer + element parser on these documents', native=('data', 'n_parse_element_doc'), parts=(16 if base in (4, 5, 6, 7, 8) else 8), timeout=1500 if q else 7200))
     info = dict(
         assumptions=[
             'tokenizer steps are decided from an arbitrary state satisfying the stated representation invariant (inductive step); the invariant holds initially (ArxmlLexer::new: cursor 0 or 3, line 1, no deferred token)',
